@@ -17,7 +17,7 @@ EXPLANATION = (
     "size assert precedes returning the string. NOT decided: foreign output containing '}' after a report on the same line; "
     "numeric equality of converted numpy scalars.")
 
-FLOOR = {"S1": 5, "S2": 3, "S3": 2, "S4": 3, "S5": 2}
+FLOOR = {"S1": 6, "S2": 3, "S3": 2, "S4": 3, "S5": 2}
 
 
 def fold_str(ctx, f, e):
@@ -127,6 +127,13 @@ def s1(ctx, rep):
             f"findall over `{U(txt)}`",
             f"the text searched is `{U(txt)[:80]}`, not the whole of `{param}` joined: lines are filtered (or the pattern anchored) "
             "before the search, so a report that follows other output on the same line is dropped")
+    # the lines are joined with a newline: `.` in the pattern does not match it, so one match cannot run from the `{` of one
+    # report to the `}` of the next when the captured lines carry no trailing newline of their own
+    sep = txt.func.value if isinstance(txt, ast.Call) and isinstance(txt.func, ast.Attribute) else None
+    oks = isinstance(sep, ast.Constant) and isinstance(sep.value, str) and "\n" in sep.value
+    rep.put(oks, "S1", "agreement", "retrieve: the captured lines are joined with a newline between them", r, txt, f"separator {U(sep) if sep is not None else '?'}",
+            f"the lines are joined with {U(sep) if sep is not None else '?'}: lines that come without trailing newlines (log events, splitlines()) fuse, "
+            "the greedy `{.*}` spans two reports and json.loads raises - or one report swallows the next")
     # payload parsed with json.loads and appended in match order
     loop = [n for n in walk_shallow(r.node) if isinstance(n, ast.For) and n.iter is fa[0]]
     ok = False
